@@ -5,7 +5,8 @@
    configuration satisfies the invariant; consequences (termination after k cycles, no deadlock,
    no handler error, partner handshake). *)
 From Coq Require Import ZArith List Bool Lia.
-From PyDcop Require Import Base Net M_Mgm M_Mgm2 M_Mgm2x P_Mgm P_Mgm3 P_Mgm3c P_Mgm2x P_Mgm2y P_Mgm2s.
+From PyDcop Require Import Base Net M_Mgm M_Mgm2 M_Mgm2x P_Mgm P_Mgm3 P_Mgm3c P_Mgm2x P_Mgm2y P_Mgm2s
+  P_Mgm2sV P_Mgm2sO P_Mgm2sA P_Mgm2sG P_Mgm2sS P_Mgm2f.
 Import ListNotations.
 Open Scope Z_scope.
 
@@ -191,14 +192,18 @@ Section Loop.
   Notation mstep := (mstep d stop thr favor).
 
   (* the micro-step lemmas (P_Mgm2sV/O/A/G) and the factorisation of the handlers (P_Mgm2f) *)
-  Hypothesis step_any : forall rn S pd, InvA rn S pd -> forall y x m l1 l2,
+  Lemma step_any : forall rn S pd, InvA rn S pd -> forall y x m l1 l2,
     rn y = true -> pd x y = l1 ++ m :: l2 -> kind_of m = t_state (S y) ->
     step_ok d stop thr favor rn S pd y x m l1 l2.
-  Hypothesis on_msg_factor : forall n f s x m,
-    on_msg d stop thr favor n (enter d stop thr favor n (S f)) s x m =
-      (let r := mstep n s x m in
-       if t_state (fst (fst r)) =? t_state s then r
-       else andthen2 r (fun s' => loop n f (t_state s') s')).
+  Proof.
+    intros rn S pd HI y x m l1 l2 Ry Hp Hk. destruct m; simpl in Hk; symmetry in Hk.
+    - apply step_V; assumption.
+    - apply step_G; assumption.
+    - apply step_O; assumption.
+    - apply step_A; assumption.
+    - apply step_Go; assumption.
+  Qed.
+  Definition on_msg_factor := on_msg_factor' d stop thr favor.
 
   Variable rn : node -> bool.
   Variable S0 : node -> m2st.
@@ -471,4 +476,801 @@ Lemma sum_by_bound L l c : (forall x, In x L -> (length (to_y2 x l) <= c)%nat) -
 Proof.
   induction L as [|x r IH]; intros H; simpl; [lia|].
   pose proof (H x (or_introl eq_refl)). specialize (IH (fun z Hz => H z (or_intror Hz))). lia.
+Qed.
+
+(* ================================================================== the real network *)
+Section Global.
+  Variable d : dcop.
+  Variable stop thr favor : Z.
+  Variable orc : node -> list Z.
+  Variable fuel : nat.
+  Notation nbr := (nbrs d).
+  Notation P := (mgm2_proto_f d stop thr favor orc fuel).
+  Notation config := (config m2st m2msg).
+  Notation InvA := (InvA d stop).
+  Notation doneb := (P_Mgm2x.doneb stop).
+
+  (* enough fuel for the nested re-dispatch: the real code has none *)
+  Definition fuel_ok : Prop := forall n, (10 * length (nbr n) + 2 <= fuel)%nat.
+  Hypothesis Hfuel : fuel_ok.
+
+  Definition st (cf : config) (n : node) : m2st := w_st (nodes cf n).
+  Definition rnc (cf : config) (n : node) : bool := w_running (nodes cf n).
+  (* everything x has sent to y and y has not consumed yet *)
+  Definition pend (cf : config) (x y : node) : list m2msg :=
+    to_y2 x (w_held (nodes cf y)) ++ chan cf x y ++ to_y2 x (allposts (st cf y)).
+
+  Record InvC (cf : config) : Prop := {
+    c_inv : InvA (rnc cf) (st cf) (pend cf);
+    c_held : forall n, rnc cf n = true -> w_held (nodes cf n) = [];
+    c_idle : forall n, rnc cf n = false -> st cf n = mgm2_init orc n;
+    c_kinds : forall n, kinds_ok (st cf n);
+    c_noself : forall n, ~ In n (map fst (allposts (st cf n)));
+    c_rest : forall n, rnc cf n = true -> nbr n <> [] -> get_post (st cf n) (t_state (st cf n)) = []
+  }.
+
+  Lemma cnt_le1 cf x y k : InvC cf -> rnc cf y = true -> In x (nbr y) -> cnt k (pend cf x y) <= 1.
+  Proof.
+    intros HC Ry Hxy. pose proof (c_inv cf HC) as HI. pose proof (i_pair _ _ _ _ _ HI x y Hxy) as Pxy.
+    pose proof (i_good _ _ _ _ _ HI y Ry (act_of d x y Hxy)) as Gy.
+    pose proof (g_c _ _ _ _ Gy) as Cy.
+    pose proof (cnt_nonneg k (pend cf x y)) as Hn.
+    assert (Hk : k = 1 \/ k = 2 \/ k = 3 \/ k = 4 \/ k = 5 \/ (k < 1 \/ 5 < k)) by lia.
+    destruct (rnc cf x) eqn:Rx.
+    - destruct (pos_facts d stop _ _ _ HI x y Hxy Rx Ry) as (Q1 & Q2 & _).
+      destruct (tabf d stop y _ x Gy Hxy) as (T1 & _ & T3 & _ & _ & _ & _ & _).
+      pose proof (b2z_leb 2 (t_state (st cf x))) as B2. pose proof (b2z_leb 4 (t_state (st cf x))) as B4.
+      pose proof (i_good _ _ _ _ _ HI x Rx (act_of d y x (nbrs_sym d y x Hxy))) as Gx.
+      pose proof (b2z_range (doneb (t_cycle (st cf x)))) as Fx. rewrite <- (g_fin _ _ _ _ Gx) in Fx.
+      destruct Hk as [->|[->|[->|[->|[->|Hk]]]]].
+      + pose proof (p_V _ _ _ _ _ Pxy) as E. unfold CV, SV in E. rewrite Rx, Ry in E.
+        pose proof (b2z_range (kinv x (t_nv (st cf y)))).
+        destruct (Z.eq_dec (t_cycle (st cf x)) (t_cycle (st cf y) + 1)) as [Ec|Ec].
+        * destruct (Q2 Ec) as (_ & K4 & _). specialize (T1 ltac:(clear - K4; lia)). clear - E Ec T1 Fx. lia.
+        * clear - E Q1 Ec Fx H. lia.
+      + pose proof (p_O _ _ _ _ _ Pxy) as E. unfold CO, SO in E. rewrite Rx, Ry in E.
+        pose proof (b2z_range (kino x (t_offers (st cf y)))). pose proof (b2z_range (2 <=? t_state (st cf x))).
+        destruct (Z.eq_dec (t_cycle (st cf x)) (t_cycle (st cf y) + 1)) as [Ec|Ec].
+        * destruct (Q2 Ec) as (K1 & K4 & _). specialize (T3 ltac:(clear - K4; lia)). clear - E Ec T3 K1 B2. lia.
+        * clear - E Q1 Ec H H0. lia.
+      + destruct (Z_le_gt_dec (cnt 3 (pend cf x y)) 1) as [H|H]; [lia|exfalso].
+        assert (Hnot : ~ (expA (st cf) y x /\ 3 <= t_state (st cf x))).
+        { intros [A B]. rewrite (p_A1 _ _ _ _ _ Pxy A B) in H. lia. }
+        rewrite (p_A0 _ _ _ _ _ Pxy Hnot) in H. lia.
+      + pose proof (p_G _ _ _ _ _ Pxy) as E. unfold CG, SG in E. rewrite Rx, Ry in E.
+        pose proof (b2z_range (kinv x (t_ng (st cf y)))). pose proof (b2z_range (4 <=? t_state (st cf x))).
+        destruct (Z.eq_dec (t_cycle (st cf x)) (t_cycle (st cf y) + 1)) as [Ec|Ec].
+        * destruct (Q2 Ec) as (K1 & _ & _). clear - E Ec K1 B4 H. lia.
+        * clear - E Q1 Ec H H0. lia.
+      + destruct (Z_le_gt_dec (cnt 5 (pend cf x y)) 1) as [H|H]; [lia|exfalso].
+        assert (Hnot : ~ (expG (st cf) y x /\ sentGo (st cf) x y)).
+        { intros [A B]. rewrite (p_Go1 _ _ _ _ _ Pxy A B) in H. lia. }
+        rewrite (p_Go0 _ _ _ _ _ Pxy Hnot) in H. lia.
+      + assert (cnt k (pend cf x y) = 0); [|lia].
+        unfold cnt. assert (E : filter (fun m => kind_of m =? k) (pend cf x y) = []); [|rewrite E; reflexivity].
+        clear Hn. induction (pend cf x y) as [|m r IHr]; [reflexivity|]. simpl.
+        assert (Hm : (kind_of m =? k) = false) by (apply Z.eqb_neq; destruct m; simpl; lia). rewrite Hm. exact IHr.
+    - (* x not started: it has sent nothing *)
+      assert (Hall : forall m, In m (pend cf x y) -> False).
+      { intros m Hm. pose proof (in_cnt_pos _ _ Hm) as Hp.
+        pose proof (idle_tabf (st cf x) y (i_idle _ _ _ _ _ HI x Rx)) as (T1 & T2 & T3 & _ & _ & _ & T7 & T8 & T9 & _).
+        destruct m; simpl in Hp.
+        - pose proof (p_V _ _ _ _ _ Pxy) as E. unfold CV, SV in E. rewrite Rx, Ry in E.
+          pose proof (b2z_range (kinv x (t_nv (st cf y)))). clear - E Hp Cy H. lia.
+        - pose proof (p_G _ _ _ _ _ Pxy) as E. unfold CG, SG in E. rewrite Rx, Ry in E.
+          pose proof (b2z_range (kinv x (t_ng (st cf y)))). clear - E Hp Cy H. lia.
+        - pose proof (p_O _ _ _ _ _ Pxy) as E. unfold CO, SO in E. rewrite Rx, Ry in E.
+          pose proof (b2z_range (kino x (t_offers (st cf y)))). clear - E Hp Cy H. lia.
+        - rewrite (p_A0 _ _ _ _ _ Pxy) in Hp; [lia|]. intros [_ B]. rewrite T1 in B. lia.
+        - rewrite (p_Go0 _ _ _ _ _ Pxy) in Hp; [lia|]. intros [_ [[_ B]|B]]; [rewrite T1 in B; lia|rewrite T2 in B; lia]. }
+      destruct (pend cf x y) as [|m r]; [rewrite cnt_nil; lia|]. exfalso. apply (Hall m). left. reflexivity.
+  Qed.
+
+  Lemma tp_bound cf y : InvC cf -> rnc cf y = true -> nbr y <> [] ->
+    (length (allposts (st cf y)) <= 5 * length (nbr y))%nat.
+  Proof.
+    intros HC Ry Hact. pose proof (c_inv cf HC) as HI.
+    assert (Hs : forall p, In p (allposts (st cf y)) -> In (fst p) (nbr y)).
+    { intros [x m] Hp. simpl. destruct (in_dec Z.eq_dec x (nbr y)) as [H|H]; [exact H|exfalso].
+      pose proof (i_far _ _ _ _ _ HI x y H) as Hf. unfold pend in Hf.
+      apply app_eq_nil in Hf as [_ Hf]. apply app_eq_nil in Hf as [_ Hf].
+      assert (Hin : In m (to_y2 x (allposts (st cf y)))).
+      { unfold to_y2. apply in_map_iff. exists (x, m). split; [reflexivity|]. apply filter_In. split; [exact Hp|simpl; apply Z.eqb_refl]. }
+      rewrite Hf in Hin. exact Hin. }
+    rewrite (len_by_sender (nbr y) _ (nbrs_nodup d y) Hs).
+    apply sum_by_bound. intros x Hx.
+    assert (Hle : (length (to_y2 x (allposts (st cf y))) <= length (pend cf x y))%nat).
+    { unfold pend. rewrite !app_length. lia. }
+    pose proof (len_kinds (pend cf x y)) as Hk.
+    pose proof (cnt_le1 cf x y 1 HC Ry Hx). pose proof (cnt_le1 cf x y 2 HC Ry Hx). pose proof (cnt_le1 cf x y 3 HC Ry Hx).
+    pose proof (cnt_le1 cf x y 4 HC Ry Hx). pose proof (cnt_le1 cf x y 5 HC Ry Hx). lia.
+  Qed.
+
+  Lemma inv_init : InvC (init P).
+  Proof.
+    constructor; unfold rnc, st, pend; simpl; try (intros; reflexivity || discriminate).
+    - constructor; simpl.
+      + intros n _. reflexivity.
+      + intros n Hn. discriminate.
+      + intros n Hn. discriminate.
+      + intros x y _. constructor; unfold SV, CV, SO, CO, SG, CG, expA, expG, link; simpl; try reflexivity;
+          try (intros; discriminate); try (intros [H _]; discriminate H); try (intros ? ? []); try (intros ? ? ? []).
+        * intros [].
+        * intros [].
+      + intros x y _. reflexivity.
+    - intros n. unfold kinds_ok. simpl. auto.
+    - intros n [].
+  Qed.
+
+  Notation fin_cycle := (P_Mgm3c.fin_cycle d stop).
+  Definition StepEv (cf cf' : config) (e : list mev) : Prop :=
+    noerr e /\ (forall n k, In (EvFinished n k) e -> 0 <= stop -> k = fin_cycle n) /\
+    (forall x, t_fin (st cf' x) = t_fin (st cf x) + Z.of_nat (count_fin x e)).
+
+  Lemma count_fin_other y x e : (forall n k, In (EvFinished n k) e -> n = y) -> x <> y -> count_fin x e = 0%nat.
+  Proof.
+    intros H Hne. induction e as [|ev r IH]; [reflexivity|].
+    assert (IH' : count_fin x r = 0%nat) by (apply IH; intros n k Hn; apply (H n k); right; exact Hn).
+    destruct ev; simpl; try exact IH'.
+    assert (n = y) by (apply (H n k); left; reflexivity). subst n.
+    assert (E : (y =? x) = false) by (apply Z.eqb_neq; congruence). rewrite E. simpl. exact IH'.
+  Qed.
+
+  Lemma fin_cycle_active n : nbr n <> [] -> fin_cycle n = stop.
+  Proof. unfold P_Mgm3c.fin_cycle. destruct (nbr n); [congruence|reflexivity]. Qed.
+
+  Ltac bag_cnt := intros; rewrite ?cnt_app, ?cnt_nil; lia.
+  Ltac bag_in := intros ?; rewrite ?in_app_iff; simpl; tauto.
+
+  (* ---------------------------------------------------------------- a message reaches a computation not yet started *)
+  Lemma inv_hold cf s d0 m q : InvC cf -> chan cf s d0 = m :: q -> rnc cf d0 = false ->
+    InvC (mkConfig (upd_node (nodes cf) d0 (mkWrap false (w_held (nodes cf d0) ++ [(s, m)]) (w_st (nodes cf d0))))
+                   (upd_chan (chan cf) s d0 q)).
+  Proof.
+    intros HC Hch Rd. set (cf' := mkConfig _ _).
+    assert (Hst : forall n, st cf' n = st cf n).
+    { intros n. unfold st, cf', upd_node. simpl. destruct (n =? d0) eqn:E; [apply Z.eqb_eq in E; subst; reflexivity|reflexivity]. }
+    assert (Hrn : forall n, rnc cf' n = rnc cf n).
+    { intros n. unfold rnc, cf', upd_node. simpl. destruct (n =? d0) eqn:E; [apply Z.eqb_eq in E; subst; simpl; symmetry; exact Rd|reflexivity]. }
+    assert (Hpd : forall a b, pend cf' a b = pend cf a b).
+    { intros a b. unfold pend. rewrite Hst. unfold cf', upd_node, upd_chan. simpl.
+      destruct (Z.eqb_spec b d0) as [->|Hb].
+      - simpl. rewrite to_y2_app, to_y2_single. destruct (Z.eqb_spec a s) as [->|Ha].
+        + rewrite !Z.eqb_refl. simpl. rewrite Hch, <- !app_assoc. reflexivity.
+        + assert (E : (s =? a) = false) by (apply Z.eqb_neq; congruence). rewrite E, andb_false_l, app_nil_r. reflexivity.
+      - rewrite andb_false_r. reflexivity. }
+    destruct HC as [C1 C2 C3 C4 C5 C6]. constructor.
+    - apply (InvA_ext d stop (rnc cf) (rnc cf') (st cf) (st cf') (pend cf) (pend cf')); auto.
+      intros n. rewrite Hst. reflexivity.
+    - intros n Hn. rewrite Hrn in Hn. unfold cf', upd_node. simpl.
+      destruct (Z.eqb_spec n d0) as [->|Hne]; [congruence|apply C2; exact Hn].
+    - intros n Hn. rewrite Hrn in Hn. rewrite Hst. apply C3. exact Hn.
+    - intros n. rewrite Hst. apply C4.
+    - intros n. rewrite Hst. apply C5.
+    - intros n Hn Ha. rewrite Hrn in Hn. rewrite Hst. apply C6; assumption.
+  Qed.
+
+  (* ---------------------------------------------------------------- a message reaches a running computation *)
+  Definition baseR (cf : config) (d0 : node) : node -> node -> list m2msg :=
+    fun a b => if b =? d0 then chan cf a d0 else pend cf a b.
+  Definition baseR' (cf : config) (s d0 : node) (q : list m2msg) : node -> node -> list m2msg :=
+    fun a b => if (a =? s) && (b =? d0) then q else baseR cf d0 a b.
+
+  Lemma VInv_of_InvC cf d0 : InvC cf -> rnc cf d0 = true ->
+    VInv d stop (rnc cf) (st cf) d0 (baseR cf d0) (st cf d0) [].
+  Proof.
+    intros [C1 C2 C3 C4 C5 C6] Rd. split; [|split; [apply C4|apply C5]].
+    apply (InvA_ext d stop (rnc cf) (rnc cf) (st cf) _ (pend cf) _); auto.
+    - intros n. unfold updS. destruct (Z.eqb_spec n d0) as [->|]; reflexivity.
+    - intros a b. unfold pdV, baseR, pend.
+      destruct (Z.eqb_spec a d0) as [->|Ha].
+      + simpl. rewrite app_nil_r. destruct (Z.eqb_spec b d0) as [->|Hb]; [|reflexivity].
+        rewrite ?Z.eqb_refl, (C2 d0 Rd), (to_y2_nil_notin d0 _ (C5 d0)), app_nil_r. reflexivity.
+      + destruct (Z.eqb_spec b d0) as [->|Hb]; [rewrite ?Z.eqb_refl, (C2 d0 Rd)|]; reflexivity.
+  Qed.
+
+  Lemma recv_finish cf s d0 m q st' outs :
+    InvC cf -> chan cf s d0 = m :: q -> rnc cf d0 = true -> s <> d0 ->
+    VInv d stop (rnc cf) (st cf) d0 (baseR' cf s d0 q) st' outs -> get_post st' (t_state st') = [] ->
+    InvC (mkConfig (upd_node (nodes cf) d0 (mkWrap true (w_held (nodes cf d0)) st'))
+                   (send_all (upd_chan (chan cf) s d0 q) d0 outs)).
+  Proof.
+    intros HC Hch Rd Hsd (HV & HK & HS) Hrest. set (cf' := mkConfig _ _).
+    destruct HC as [C1 C2 C3 C4 C5 C6].
+    assert (Hst : forall n, st cf' n = updS (st cf) d0 st' n).
+    { intros n. unfold st, cf', upd_node, updS. simpl. destruct (n =? d0); reflexivity. }
+    assert (Hrn : forall n, rnc cf' n = rnc cf n).
+    { intros n. unfold rnc, cf', upd_node. simpl. destruct (Z.eqb_spec n d0) as [->|]; [simpl; symmetry; exact Rd|reflexivity]. }
+    assert (Hheld : forall n, w_held (nodes cf' n) = w_held (nodes cf n)).
+    { intros n. unfold cf', upd_node. simpl. destruct (Z.eqb_spec n d0) as [->|]; reflexivity. }
+    assert (Hchan : forall a b, chan cf' a b =
+               (if a =? d0 then (if (a =? s) && (b =? d0) then q else chan cf a b) ++ to_y2 b outs
+                else (if (a =? s) && (b =? d0) then q else chan cf a b))).
+    { intros a b. unfold cf'. simpl. rewrite send_all_spec2. unfold upd_chan. reflexivity. }
+    assert (Hbag : forall a b, (forall k, cnt k (pend cf' a b) = cnt k (pdV d0 (baseR' cf s d0 q) st' outs a b)) /\
+                               (forall m0, In m0 (pend cf' a b) -> In m0 (pdV d0 (baseR' cf s d0 q) st' outs a b))).
+    { intros a b. unfold pend. rewrite Hheld, Hchan, Hst. unfold pdV, baseR', baseR, updS, pend.
+      assert (Eds : (d0 =? s) = false) by (apply Z.eqb_neq; congruence).
+      destruct (Z.eqb_spec a d0) as [->|Ha].
+      - rewrite Eds. simpl andb. destruct (Z.eqb_spec b d0) as [->|Hb].
+        + rewrite ?Z.eqb_refl, (C2 d0 Rd), (to_y2_nil_notin d0 _ HS). simpl. split; [bag_cnt|bag_in].
+        + split; [bag_cnt|bag_in].
+      - destruct (Z.eqb_spec b d0) as [->|Hb].
+        + rewrite ?Z.eqb_refl, (C2 d0 Rd), ?andb_true_r. simpl. destruct (a =? s); split; [bag_cnt|bag_in|bag_cnt|bag_in].
+        + rewrite ?andb_false_r. split; [bag_cnt|bag_in]. }
+    constructor.
+    - apply (InvA_bag_ext d stop (rnc cf') (st cf') (pdV d0 (baseR' cf s d0 q) st' outs) (pend cf')).
+      + intros a b k. apply (proj1 (Hbag a b)).
+      + intros a b m0. apply (proj2 (Hbag a b)).
+      + apply (InvA_ext d stop (rnc cf) (rnc cf') (updS (st cf) d0 st') (st cf') (pdV d0 (baseR' cf s d0 q) st' outs) (pdV d0 (baseR' cf s d0 q) st' outs)); auto.
+        intros n. rewrite Hst. reflexivity.
+    - intros n Hn. rewrite Hrn in Hn. rewrite Hheld. apply C2. exact Hn.
+    - intros n Hn. rewrite Hrn in Hn. rewrite Hst. unfold updS.
+      destruct (Z.eqb_spec n d0) as [->|]; [congruence|apply C3; exact Hn].
+    - intros n. rewrite Hst. unfold updS. destruct (n =? d0); [exact HK|apply C4].
+    - intros n. rewrite Hst. unfold updS. destruct (Z.eqb_spec n d0) as [->|]; [exact HS|apply C5].
+    - intros n Hn Ha. rewrite Hrn in Hn. rewrite Hst. unfold updS.
+      destruct (Z.eqb_spec n d0) as [->|]; [exact Hrest|apply C6; assumption].
+  Qed.
+
+  Lemma inv_recv cf s d0 m q st' outs evs : InvC cf -> chan cf s d0 = m :: q -> rnc cf d0 = true ->
+    mgm2_recv_f d stop thr favor fuel d0 (st cf d0) s m = (st', outs, evs) ->
+    InvC (mkConfig (upd_node (nodes cf) d0 (mkWrap true (w_held (nodes cf d0)) st'))
+                   (send_all (upd_chan (chan cf) s d0 q) d0 outs)) /\
+    EvP stop d0 (st cf d0) st' evs /\ nbr d0 <> [].
+  Proof.
+    intros HC Hch Rd Hr. pose proof (c_inv cf HC) as HI.
+    assert (Hin : In m (pend cf s d0)).
+    { unfold pend. apply in_or_app. right. apply in_or_app. left. rewrite Hch. left. reflexivity. }
+    assert (Hsd : In s (nbr d0)).
+    { destruct (in_dec Z.eq_dec s (nbr d0)) as [H|H]; [exact H|]. rewrite (i_far _ _ _ _ _ HI s d0 H) in Hin. destruct Hin. }
+    pose proof (act_of d s d0 Hsd) as Hact.
+    assert (Hne : s <> d0) by (intros ->; eapply nbrs_irrefl; eauto).
+    pose proof (VInv_of_InvC cf d0 HC Rd) as HV0.
+    pose proof (tp_bound cf d0 HC Rd Hact) as Htp.
+    pose proof (Hfuel d0) as Hf. destruct fuel as [|f]; [lia|].
+    pose proof (i_good _ _ _ _ _ HI d0 Rd Hact) as G0.
+    unfold mgm2_recv_f in Hr.
+    destruct (Z.eq_dec (kind_of m) (t_state (st cf d0))) as [Hk|Hk].
+    - assert (Hb : baseR cf d0 s d0 = m :: q) by (unfold baseR; rewrite Z.eqb_refl; exact Hch).
+      pose proof (recv_ok d stop thr favor (rnc cf) (st cf) d0 Rd Hact (baseR cf d0) (baseR' cf s d0 q) (st cf d0) s m q f
+                    HV0 (c_rest cf HC d0 Rd Hact) Hb Hk (fun a b => eq_refl) ltac:(lia)) as HL.
+      rewrite Hr in HL. unfold LoopPost in HL. simpl in HL. destruct HL as (A1 & A2 & _ & _ & A5).
+      split; [apply (recv_finish cf s d0 m q st' outs HC Hch Rd Hne A1 A2)|split; [exact A5|exact Hact]].
+    - (* not the awaited kind: postponed *)
+      assert (Hkm : 1 <= kind_of m <= 5) by (destruct m; simpl; lia).
+      unfold on_msg in Hr. cbv zeta in Hr.
+      assert (Eg : negb (t_state (st cf d0) =? kind_of m) = true).
+      { apply negb_true_iff. apply Z.eqb_neq. congruence. }
+      rewrite Eg in Hr. unfold ret2 in Hr. injection Hr as <- <- <-.
+      set (k := kind_of m) in *. set (s0 := st cf d0) in *.
+      destruct (allposts_split s0 k Hkm) as (A & B & EA & ES).
+      set (s1 := set_post s0 k (get_post s0 k ++ [(s, m)])).
+      assert (EA1 : allposts s1 = A ++ (get_post s0 k ++ [(s, m)]) ++ B) by apply ES.
+      destruct HV0 as (HV & HK & HS).
+      assert (HV1 : VInv d stop (rnc cf) (st cf) d0 (baseR' cf s d0 q) s1 []).
+      { split; [|split].
+        - apply (InvA_bag_ext d stop (rnc cf) (updS (st cf) d0 s1) (pdV d0 (baseR cf d0) s0 [])).
+          + intros a b k0. unfold pdV, baseR'. destruct (Z.eqb_spec a d0) as [->|Ha].
+            * assert (E : (d0 =? s) = false) by (apply Z.eqb_neq; congruence). rewrite E. reflexivity.
+            * destruct (Z.eqb_spec b d0) as [->|Hb0]; [|rewrite andb_false_r; reflexivity].
+              rewrite Z.eqb_refl, andb_true_r, EA1, EA. unfold baseR. rewrite Z.eqb_refl.
+              destruct (Z.eqb_spec a s) as [->|Has].
+              -- rewrite Hch, !to_y2_app, to_y2_single, Z.eqb_refl, !cnt_app, !cnt_cons, cnt_nil. lia.
+              -- rewrite !to_y2_app, to_y2_single. assert (E : (s =? a) = false) by (apply Z.eqb_neq; congruence).
+                 rewrite E, app_nil_r. reflexivity.
+          + intros a b m0. unfold pdV, baseR'. destruct (Z.eqb_spec a d0) as [->|Ha].
+            * assert (E : (d0 =? s) = false) by (apply Z.eqb_neq; congruence). rewrite E. auto.
+            * destruct (Z.eqb_spec b d0) as [->|Hb0]; [|rewrite andb_false_r; auto].
+              rewrite Z.eqb_refl, andb_true_r, EA1, EA. unfold baseR. rewrite Z.eqb_refl.
+              destruct (Z.eqb_spec a s) as [->|Has].
+              -- rewrite Hch, !to_y2_app, to_y2_single, Z.eqb_refl. rewrite !in_app_iff. simpl. rewrite ?in_app_iff. tauto.
+              -- rewrite !to_y2_app, to_y2_single. assert (E : (s =? a) = false) by (apply Z.eqb_neq; congruence).
+                 rewrite E, app_nil_r. auto.
+          + apply (InvA_ext d stop (rnc cf) (rnc cf) (updS (st cf) d0 s0) (updS (st cf) d0 s1)
+                     (pdV d0 (baseR cf d0) s0 []) (pdV d0 (baseR cf d0) s0 [])); auto.
+            intros n. unfold updS. destruct (n =? d0); [apply skel_set_post|reflexivity].
+        - apply kinds_set; [exact Hkm|exact HK|]. apply Forall_app. split; [apply kinds_get; assumption|].
+          constructor; [reflexivity|constructor].
+        - rewrite EA1. intros Hc. rewrite !map_app in Hc. apply in_app_or in Hc as [Hc|Hc].
+          + apply HS. rewrite EA, !map_app. apply in_or_app. left. exact Hc.
+          + apply in_app_or in Hc as [Hc|Hc].
+            * apply in_app_or in Hc as [Hc|Hc].
+              -- apply HS. rewrite EA, !map_app. apply in_or_app. right. apply in_or_app. left. exact Hc.
+              -- simpl in Hc. destruct Hc as [Hc|[]]. congruence.
+            * apply HS. rewrite EA, !map_app. apply in_or_app. right. apply in_or_app. right. exact Hc. }
+      assert (Hst1 : t_state s1 = t_state s0).
+      { pose proof (skel_set_post s0 k (get_post s0 k ++ [(s, m)])) as K. unfold skel in K. injection K. auto. }
+      assert (Hfin1 : t_fin s1 = t_fin s0).
+      { pose proof (skel_set_post s0 k (get_post s0 k ++ [(s, m)])) as K. unfold skel in K. injection K. auto. }
+      split; [|split; [apply EvP_nil; exact Hfin1|exact Hact]].
+      apply (recv_finish cf s d0 m q s1 [] HC Hch Rd Hne HV1).
+      rewrite Hst1. unfold s1. rewrite get_set_post_other; [apply (c_rest cf HC d0 Rd Hact)|exact Hkm|apply (g_k _ _ _ _ G0)|congruence].
+  Qed.
+
+  (* ---------------------------------------------------------------- a computation starts *)
+  Lemma init_posts n k : get_post (mgm2_init orc n) k = [].
+  Proof. unfold get_post, mgm2_init. simpl. destruct (k =? 1), (k =? 2), (k =? 3), (k =? 4); reflexivity. Qed.
+
+  Lemma inv_start cf n st' outs evs : InvC cf -> rnc cf n = false ->
+    mgm2_start_f d stop thr favor fuel n (st cf n) = (st', outs, evs) ->
+    InvC (mkConfig (upd_node (nodes cf) n (mkWrap true [] st'))
+                   (reinject_all (send_all (chan cf) n outs) n (reinject (w_held (nodes cf n))))) /\
+    noerr evs /\ (forall x k, In (EvFinished x k) evs -> x = n /\ (0 <= stop -> k = fin_cycle n)) /\
+    t_fin st' = t_fin (st cf n) + Z.of_nat (count_fin n evs).
+  Proof.
+    intros HC Rn Hs. pose proof (c_inv cf HC) as HI.
+    pose proof (c_idle cf HC n Rn) as Hinit.
+    pose proof (Hfuel n) as Hf. destruct fuel as [|f]; [lia|].
+    assert (Hs0 : start0 d stop thr favor n (st cf n) = (st', outs, evs) /\ posts st' = posts (st cf n)).
+    { destruct (nbr n) as [|z r] eqn:En.
+      - rewrite (start_iso d stop thr favor n (S f) (st cf n) En) in Hs. split; [exact Hs|].
+        destruct (step_start d stop thr favor _ _ _ HI n Rn _ _ _ Hs) as (_ & Hpo & _). exact Hpo.
+      - assert (Hact : nbr n <> []) by (rewrite En; discriminate).
+        rewrite (start_factor d stop thr favor n f (st cf n) Hact) in Hs.
+        destruct (start0 d stop thr favor n (st cf n)) as [[s2 o2] e2] eqn:E0.
+        destruct (step_start d stop thr favor _ _ _ HI n Rn _ _ _ E0) as (_ & Hpo & _).
+        unfold andthen2 in Hs. rewrite loop_eq in Hs.
+        rewrite (posts_get _ _ 1 Hpo), Hinit, init_posts in Hs. simpl in Hs. unfold ret2 in Hs.
+        rewrite !app_nil_r in Hs. injection Hs as <- <- <-. split; [reflexivity|exact Hpo]. }
+    destruct Hs0 as [Hs0 Hpo].
+    destruct (step_start d stop thr favor _ _ _ HI n Rn _ _ _ Hs0) as (HI2 & _ & Hne & Hfin & Hcnt & Hst1).
+    set (cf' := mkConfig _ _).
+    destruct HC as [C1 C2 C3 C4 C5 C6].
+    assert (Hst : forall x, st cf' x = updS (st cf) n st' x).
+    { intros x. unfold st, cf', upd_node, updS. simpl. destruct (x =? n); reflexivity. }
+    assert (Hrn : forall x, rnc cf' x = start_rn (rnc cf) n x).
+    { intros x. unfold rnc, cf', upd_node, start_rn. simpl. destruct (x =? n); reflexivity. }
+    assert (Hbag : forall a b, (forall k, cnt k (pend cf' a b) = cnt k (pd_start (pend cf) n outs a b)) /\
+                               (forall m0, In m0 (pend cf' a b) -> In m0 (pd_start (pend cf) n outs a b))).
+    { intros a b. unfold pend. rewrite Hst. unfold cf', upd_node, updS. simpl.
+      rewrite reinject_all_spec2, send_all_spec2. unfold reinject, pd_start, pend.
+      destruct (Z.eqb_spec b n) as [->|Hb].
+      - simpl. rewrite (posts_allposts _ _ Hpo). destruct (a =? n); split; [bag_cnt|bag_in|bag_cnt|bag_in].
+      - destruct (a =? n); split; [bag_cnt|bag_in|bag_cnt|bag_in]. }
+    split; [|split; [exact Hne|split; [|exact Hcnt]]].
+    - constructor.
+      + apply (InvA_bag_ext d stop (rnc cf') (st cf') (pd_start (pend cf) n outs) (pend cf')).
+        * intros a b k. apply (proj1 (Hbag a b)).
+        * intros a b m0. apply (proj2 (Hbag a b)).
+        * apply (InvA_ext d stop (start_rn (rnc cf) n) (rnc cf') (updS (st cf) n st') (st cf')
+                   (pd_start (pend cf) n outs) (pd_start (pend cf) n outs)); auto.
+          intros x. rewrite Hst. reflexivity.
+      + intros x Hx. unfold cf', upd_node. simpl. destruct (Z.eqb_spec x n) as [->|Hxn]; [reflexivity|].
+        apply C2. rewrite Hrn in Hx. unfold start_rn in Hx. apply Z.eqb_neq in Hxn. rewrite Hxn in Hx. exact Hx.
+      + intros x Hx. rewrite Hrn in Hx. unfold start_rn in Hx. rewrite Hst. unfold updS.
+        destruct (x =? n); [discriminate|apply C3; exact Hx].
+      + intros x. rewrite Hst. unfold updS. destruct (Z.eqb_spec x n) as [->|]; [apply (posts_kinds _ _ Hpo (C4 n))|apply C4].
+      + intros x. rewrite Hst. unfold updS. destruct (Z.eqb_spec x n) as [->|]; [rewrite (posts_allposts _ _ Hpo); apply C5|apply C5].
+      + intros x Hx Ha. rewrite Hst. unfold updS. destruct (Z.eqb_spec x n) as [->|Hxn].
+        * rewrite (posts_get _ _ _ Hpo), Hinit. apply init_posts.
+        * apply C6; [|exact Ha]. rewrite Hrn in Hx. unfold start_rn in Hx. apply Z.eqb_neq in Hxn. rewrite Hxn in Hx. exact Hx.
+    - intros x k Hin. destruct (Hfin x k Hin) as (E1 & E2 & E3). split; [exact E1|]. intros Hs1. subst x k.
+      assert (Rn' : start_rn (rnc cf) n n = true) by (unfold start_rn; rewrite Z.eqb_refl; reflexivity).
+      destruct (nbr n) as [|z r] eqn:En.
+      + destruct (i_iso _ _ _ _ _ HI2 n Rn' En) as [_ Hc]. rewrite updS_same in Hc. unfold P_Mgm3c.fin_cycle. rewrite En. exact Hc.
+      + assert (Hact : nbr n <> []) by (rewrite En; discriminate).
+        pose proof (i_good _ _ _ _ _ HI2 n Rn' Hact) as G. rewrite updS_same in G.
+        rewrite (fin_cycle_active n Hact). apply (done_cycle d stop n st' G (E3 ltac:(discriminate)) Hs1).
+  Qed.
+
+  (* ---------------------------------------------------------------- one step, every schedule *)
+  Lemma StepEv_refl cf : StepEv cf cf [].
+  Proof. split; [intros n k []|split; [intros n k []|intros x; simpl; lia]]. Qed.
+
+  Lemma inv_step cf a : InvC cf -> InvC (fst (step P cf a)) /\ StepEv cf (fst (step P cf a)) (snd (step P cf a)).
+  Proof.
+    intros HC. destruct a as [n|s d0]; simpl.
+    - destruct (w_running (nodes cf n)) eqn:Rn; [simpl; split; [exact HC|apply StepEv_refl]|].
+      destruct (mgm2_start_f d stop thr favor fuel n (w_st (nodes cf n))) as [[st' outs] evs] eqn:Es. simpl.
+      destruct (inv_start cf n st' outs evs HC Rn Es) as (H1 & H2 & H3 & H4).
+      split; [exact H1|]. split; [exact H2|split].
+      + intros x k Hin Hs. destruct (H3 x k Hin) as [-> Hk]. apply Hk. exact Hs.
+      + intros x. unfold st. simpl. unfold upd_node. destruct (Z.eqb_spec x n) as [->|Hne]; simpl; [exact H4|].
+        rewrite (count_fin_other n x evs); [lia| |exact Hne]. intros n0 k Hin. apply (H3 n0 k Hin).
+    - destruct (chan cf s d0) as [|m q] eqn:Hch; [simpl; split; [exact HC|apply StepEv_refl]|].
+      destruct (w_running (nodes cf d0)) eqn:Rd.
+      + destruct (mgm2_recv_f d stop thr favor fuel d0 (w_st (nodes cf d0)) s m) as [[st' outs] evs] eqn:Er. simpl.
+        destruct (inv_recv cf s d0 m q st' outs evs HC Hch Rd Er) as (H1 & (E1 & E2 & E3) & Hact).
+        split; [exact H1|]. split; [exact E1|split].
+        * intros x k Hin Hs. destruct (E2 x k Hin) as [-> Hk]. rewrite (fin_cycle_active d0 Hact). apply Hk. exact Hs.
+        * intros x. unfold st. simpl. unfold upd_node. destruct (Z.eqb_spec x d0) as [->|Hne]; simpl; [exact E3|].
+          rewrite (count_fin_other d0 x evs); [lia| |exact Hne]. intros n0 k Hin. apply (E2 n0 k Hin).
+      + simpl. split; [apply (inv_hold cf s d0 m q HC Hch Rd)|].
+        split; [intros n k []|split; [intros n k []|]]. intros x. unfold st. simpl. unfold upd_node.
+        destruct (Z.eqb_spec x d0) as [->|]; simpl; lia.
+  Qed.
+
+  Lemma reachable_inv cf : reachable P cf -> InvC cf.
+  Proof. induction 1; [apply inv_init|apply inv_step; assumption]. Qed.
+
+  Lemma exec_inv sched : forall cf, InvC cf ->
+    InvC (fst (exec P cf sched)) /\ StepEv cf (fst (exec P cf sched)) (snd (exec P cf sched)).
+  Proof.
+    induction sched as [|a r IH]; intros cf HC; simpl; [split; [exact HC|apply StepEv_refl]|].
+    destruct (inv_step cf a HC) as [H1 (A1 & A2 & A3)].
+    destruct (step P cf a) as [cf1 e1]. simpl in *.
+    destruct (IH cf1 H1) as [H2 (B1 & B2 & B3)].
+    destruct (exec P cf1 r) as [cf2 e2]. simpl in *. split; [exact H2|]. split; [|split].
+    - intros n k Hin. apply in_app_or in Hin as [Hin|Hin]; [apply (A1 n k Hin)|apply (B1 n k Hin)].
+    - intros n k Hin. apply in_app_or in Hin as [Hin|Hin]; [apply (A2 n k Hin)|apply (B2 n k Hin)].
+    - intros x. rewrite count_fin_app, Nat2Z.inj_add, B3, A3. lia.
+  Qed.
+
+  Lemma fin_le1 cf x : InvC cf -> 0 <= t_fin (st cf x) <= 1.
+  Proof.
+    intros HC. pose proof (c_inv cf HC) as HI. destruct (rnc cf x) eqn:Rx.
+    - destruct (nbr x) eqn:En.
+      + destruct (i_iso _ _ _ _ _ HI x Rx En) as [H _]. lia.
+      + assert (Ha : nbr x <> []) by (rewrite En; discriminate).
+        rewrite (g_fin _ _ _ _ (i_good _ _ _ _ _ HI x Rx Ha)). apply b2z_range.
+    - rewrite (c_idle cf HC x Rx). simpl. lia.
+  Qed.
+
+  (* ---------------------------------------------------------------- quiescence *)
+  Lemma cnt_state_zero w s : kinds_ok s -> 1 <= t_state s <= 5 -> get_post s (t_state s) = [] ->
+    cnt (t_state s) (to_y2 w (allposts s)) = 0.
+  Proof.
+    intros (K1 & K2 & K3 & K4 & K5) Hk Hp. unfold allposts. rewrite !to_y2_app, !cnt_app.
+    assert (Hz : forall k l, Forall (fun sm : Z * m2msg => kind_of (snd sm) = k) l -> (k <> t_state s \/ l = []) ->
+                 cnt (t_state s) (to_y2 w l) = 0).
+    { intros k l HF [Hne|Hnil]; [|subst l; reflexivity]. induction l as [|[a m] r IH]; [reflexivity|].
+      inversion HF; subst. simpl in *. unfold to_y2. simpl. destruct (a =? w); simpl; [|apply IH; assumption].
+      rewrite cnt_cons. fold (to_y2 w r). rewrite (IH H2).
+      assert (E : (kind_of m =? t_state s) = false) by (apply Z.eqb_neq; exact Hne). rewrite E. reflexivity. }
+    unfold get_post in Hp.
+    rewrite (Hz 1 _ K1), (Hz 2 _ K2), (Hz 3 _ K3), (Hz 4 _ K4), (Hz 5 _ K5); try lia;
+      destruct (Z.eqb_spec (t_state s) 1), (Z.eqb_spec (t_state s) 2), (Z.eqb_spec (t_state s) 3), (Z.eqb_spec (t_state s) 4);
+      try (left; lia); try (right; exact Hp).
+  Qed.
+
+  Definition quiet (cf : config) : Prop :=
+    (forall x, nbr x <> [] -> rnc cf x = true) /\ (forall a b, chan cf a b = []).
+
+  Lemma quiet_cnt cf w x : InvC cf -> quiet cf -> nbr x <> [] ->
+    cnt (t_state (st cf x)) (pend cf w x) = 0.
+  Proof.
+    intros HC [Q1 Q2] Ha. pose proof (Q1 x Ha) as Rx. unfold pend. rewrite (c_held cf HC x Rx), Q2. simpl.
+    apply cnt_state_zero; [apply (c_kinds cf HC)|apply (g_k _ _ _ _ (i_good _ _ _ _ _ (c_inv cf HC) x Rx Ha))|apply (c_rest cf HC x Rx Ha)].
+  Qed.
+
+  Lemma pick_smaller cf x : InvC cf -> quiet cf -> nbr x <> [] -> doneb (t_cycle (st cf x)) = false ->
+    exists w, In w (nbr x) /\ doneb (t_cycle (st cf w)) = false /\
+              5 * t_cycle (st cf w) + t_state (st cf w) < 5 * t_cycle (st cf x) + t_state (st cf x).
+  Proof.
+    intros HC HQ Ha Hnd. pose proof (c_inv cf HC) as HI. destruct HQ as [Q1 Q2].
+    pose proof (Q1 x Ha) as Rx. pose proof (i_good _ _ _ _ _ HI x Rx Ha) as Gx.
+    pose proof (g_k _ _ _ _ Gx) as Kx.
+    assert (Hnd' : forall w, t_cycle (st cf w) <= t_cycle (st cf x) -> doneb (t_cycle (st cf w)) = false).
+    { intros w Hle. destruct (doneb (t_cycle (st cf w))) eqn:E; [|reflexivity].
+      rewrite (doneb_mono stop _ _ Hle E) in Hnd. discriminate. }
+    assert (Hcand : forall w, In w (nbr x) -> rnc cf w = true /\ good d stop w (st cf w) /\ In x (nbr w)).
+    { intros w Hw. pose proof (nbrs_sym d x w Hw) as Hxw. pose proof (Q1 w (act_of d x w Hxw)) as Rw.
+      split; [exact Rw|split; [apply (i_good _ _ _ _ _ HI w Rw (act_of d x w Hxw))|exact Hxw]]. }
+    assert (Hk : t_state (st cf x) = 1 \/ t_state (st cf x) = 2 \/ t_state (st cf x) = 3 \/ t_state (st cf x) = 4 \/ t_state (st cf x) = 5) by lia.
+    destruct Hk as [K|[K|[K|[K|K]]]].
+    - (* waiting for a value *)
+      destruct (g_nv _ _ _ _ Gx) as [_ Hinc]. pose proof (g_nv1 _ _ _ _ Gx K) as Hl. rewrite <- (map_length fst) in Hl.
+      destruct (notfull_ex _ _ Hinc (nbrs_nodup d x) Hl) as (w & Hw & Hnw). exists w. split; [exact Hw|].
+      destruct (Hcand w Hw) as (Rw & Gw & Hxw). pose proof (g_k _ _ _ _ Gw) as Kw.
+      pose proof (p_V _ _ _ _ _ (i_pair _ _ _ _ _ HI w x Hw)) as E. unfold CV, SV in E. rewrite Rw, Rx in E.
+      pose proof (quiet_cnt cf w x HC (conj Q1 Q2) Ha) as Hc. rewrite K in Hc. rewrite Hc in E.
+      rewrite (proj2 (kinv_false w (t_nv (st cf x))) Hnw) in E. simpl in E.
+      pose proof (g_fin _ _ _ _ Gw) as Fw. destruct (doneb (t_cycle (st cf w))) eqn:Ed; simpl in Fw.
+      + exfalso. assert (t_cycle (st cf w) = t_cycle (st cf x)) by (clear - E Fw; lia). rewrite H in Ed. congruence.
+      + split; [reflexivity|]. clear - E Fw Kw Kx K. lia.
+    - (* waiting for an offer *)
+      destruct (g_of _ _ _ _ Gx) as [_ [Hinc _]]. pose proof (g_of2 _ _ _ _ Gx K) as Hl. rewrite <- (map_length fst) in Hl.
+      destruct (notfull_ex _ _ Hinc (nbrs_nodup d x) Hl) as (w & Hw & Hnw). exists w. split; [exact Hw|].
+      destruct (Hcand w Hw) as (Rw & Gw & Hxw). pose proof (g_k _ _ _ _ Gw) as Kw.
+      pose proof (p_O _ _ _ _ _ (i_pair _ _ _ _ _ HI w x Hw)) as E. unfold CO, SO in E. rewrite Rw, Rx in E.
+      pose proof (quiet_cnt cf w x HC (conj Q1 Q2) Ha) as Hc. rewrite K in Hc. rewrite Hc in E.
+      rewrite (proj2 (kino_false w (t_offers (st cf x))) Hnw) in E. simpl in E.
+      pose proof (b2z_leb 2 (t_state (st cf w))) as B2.
+      assert (Hle : t_cycle (st cf w) <= t_cycle (st cf x)) by (clear - E B2 Kw; lia).
+      split; [apply Hnd'; exact Hle|]. clear - E B2 Kw Kx K. lia.
+    - (* waiting for the answer of the partner *)
+      pose proof (g_k3 _ _ _ _ Gx K) as Ho. destruct (g_off _ _ _ _ Gx Ho) as (w & Hp & Hw). exists w. split; [exact Hw|].
+      destruct (Hcand w Hw) as (Rw & Gw & Hxw). pose proof (g_k _ _ _ _ Gw) as Kw.
+      pose proof (i_pair _ _ _ _ _ HI w x Hw) as Pwx.
+      pose proof (quiet_cnt cf w x HC (conj Q1 Q2) Ha) as Hc. rewrite K in Hc.
+      assert (HA : expA (st cf) x w) by (unfold expA; rewrite K; repeat split; try assumption; lia).
+      assert (Hk2 : t_state (st cf w) <= 2).
+      { destruct (Z_le_gt_dec (t_state (st cf w)) 2) as [H|H]; [exact H|exfalso].
+        rewrite (p_A1 _ _ _ _ _ Pwx HA ltac:(clear - H; lia)) in Hc. discriminate. }
+      destruct (pos_facts d stop _ _ _ HI w x Hw Rw Rx) as (P1 & P2 & _).
+      assert (Hle : t_cycle (st cf w) <= t_cycle (st cf x)).
+      { destruct (Z_le_gt_dec (t_cycle (st cf w)) (t_cycle (st cf x))) as [H|H]; [exact H|exfalso].
+        assert (E : t_cycle (st cf w) = t_cycle (st cf x) + 1) by (clear - P1 H; lia). destruct (P2 E) as (_ & H4 & _). clear - H4 K. lia. }
+      split; [apply Hnd'; exact Hle|]. clear - Hle Hk2 Kw K. lia.
+    - (* waiting for a gain *)
+      destruct (g_ng _ _ _ _ Gx) as [_ Hinc]. pose proof (g_ng4 _ _ _ _ Gx K) as Hl. rewrite <- (map_length fst) in Hl.
+      destruct (notfull_ex _ _ Hinc (nbrs_nodup d x) Hl) as (w & Hw & Hnw). exists w. split; [exact Hw|].
+      destruct (Hcand w Hw) as (Rw & Gw & Hxw). pose proof (g_k _ _ _ _ Gw) as Kw.
+      pose proof (p_G _ _ _ _ _ (i_pair _ _ _ _ _ HI w x Hw)) as E. unfold CG, SG in E. rewrite Rw, Rx in E.
+      pose proof (quiet_cnt cf w x HC (conj Q1 Q2) Ha) as Hc. rewrite K in Hc. rewrite Hc in E.
+      rewrite (proj2 (kinv_false w (t_ng (st cf x))) Hnw) in E. simpl in E.
+      pose proof (b2z_leb 4 (t_state (st cf w))) as B4.
+      assert (Hle : t_cycle (st cf w) <= t_cycle (st cf x)) by (clear - E B4 Kw; lia).
+      split; [apply Hnd'; exact Hle|]. clear - E B4 Kw Kx K. lia.
+    - (* waiting for the go / no-go of the partner *)
+      pose proof (g_k5 _ _ _ _ Gx K) as Hcm. destruct (g_com _ _ _ _ Gx Hcm) as (_ & w & Hp & Hw). exists w. split; [exact Hw|].
+      destruct (Hcand w Hw) as (Rw & Gw & Hxw). pose proof (g_k _ _ _ _ Gw) as Kw.
+      pose proof (i_pair _ _ _ _ _ HI w x Hw) as Pwx.
+      pose proof (quiet_cnt cf w x HC (conj Q1 Q2) Ha) as Hc. rewrite K in Hc.
+      assert (HG : expG (st cf) x w) by (unfold expG; rewrite K; repeat split; try assumption; lia).
+      pose proof (p_L _ _ _ _ _ (i_pair _ _ _ _ _ HI x w Hxw) Hcm Hp) as HL. unfold link in HL.
+      assert (Hns : ~ sentGo (st cf) w x).
+      { intros Hs. rewrite (p_Go1 _ _ _ _ _ Pwx HG Hs) in Hc. discriminate. }
+      unfold sentGo in Hns.
+      destruct HL as [[E1 _]|[E1 _]]; [exfalso; apply Hns; right; exact E1|].
+      split; [apply Hnd'; lia|].
+      assert (t_state (st cf w) <> 5) by (intros E5; apply Hns; left; split; assumption).
+      clear - E1 H Kw K. lia.
+  Qed.
+
+  Lemma quiescent_all_done cf : InvC cf -> quiet cf -> forall x, nbr x <> [] -> doneb (t_cycle (st cf x)) = true.
+  Proof.
+    intros HC HQ.
+    assert (H : forall N x, nbr x <> [] -> (Z.to_nat (5 * t_cycle (st cf x) + t_state (st cf x)) <= N)%nat ->
+                doneb (t_cycle (st cf x)) = true).
+    { induction N as [|N IH]; intros x Ha Hm.
+      - exfalso. pose proof (i_good _ _ _ _ _ (c_inv cf HC) x (proj1 HQ x Ha) Ha) as G.
+        pose proof (g_c _ _ _ _ G). pose proof (g_k _ _ _ _ G). lia.
+      - destruct (doneb (t_cycle (st cf x))) eqn:E; [reflexivity|exfalso].
+        destruct (pick_smaller cf x HC HQ Ha E) as (w & Hw & Hnw & Hlt).
+        pose proof (act_of d x w (nbrs_sym d x w Hw)) as Haw.
+        pose proof (i_good _ _ _ _ _ (c_inv cf HC) w (proj1 HQ w Haw) Haw) as G.
+        pose proof (g_c _ _ _ _ G). pose proof (g_k _ _ _ _ G).
+        rewrite (IH w Haw ltac:(lia)) in Hnw. discriminate. }
+    intros x Ha. apply (H _ x Ha (le_n _)).
+  Qed.
+
+  (* ---------------------------------------------------------------- theorems *)
+  Lemma pend_nil_final cf x w : InvC cf -> quiet cf -> In w (nbr x) -> pend cf w x = [].
+  Proof.
+    intros HC HQ Hw. pose proof (c_inv cf HC) as HI. destruct HQ as [Q1 Q2].
+    pose proof (act_of d w x Hw) as Hax. pose proof (nbrs_sym d x w Hw) as Hxw. pose proof (act_of d x w Hxw) as Haw.
+    pose proof (Q1 x Hax) as Rx. pose proof (Q1 w Haw) as Rw.
+    pose proof (i_good _ _ _ _ _ HI x Rx Hax) as Gx. pose proof (i_good _ _ _ _ _ HI w Rw Haw) as Gw.
+    pose proof (quiescent_all_done cf HC (conj Q1 Q2) x Hax) as Dx.
+    pose proof (quiescent_all_done cf HC (conj Q1 Q2) w Haw) as Dw.
+    pose proof (g_done _ _ _ _ Gx Dx) as Kx. pose proof (g_done _ _ _ _ Gw Dw) as Kw.
+    pose proof (g_fin _ _ _ _ Gx) as Fx. pose proof (g_fin _ _ _ _ Gw) as Fw. rewrite Dx in Fx. rewrite Dw in Fw. simpl in Fx, Fw.
+    pose proof (i_pair _ _ _ _ _ HI w x Hw) as Pwx. pose proof (i_pair _ _ _ _ _ HI x w Hxw) as Pxw.
+    destruct (le_facts d stop _ _ _ HI w x Hw Rw Rx) as (L1 & _ & _).
+    destruct (le_facts d stop _ _ _ HI x w Hxw Rx Rw) as (M1 & _ & _).
+    pose proof (b2z_range (kinv w (t_nv (st cf x)))) as B1. pose proof (b2z_range (kinv x (t_nv (st cf w)))) as B2.
+    assert (Ec : t_cycle (st cf w) = t_cycle (st cf x)) by (clear - L1 M1 Fx Fw B1 B2; lia).
+    pose proof (len_kinds (pend cf w x)) as Hlen.
+    pose proof (cnt_nonneg 1 (pend cf w x)). pose proof (cnt_nonneg 2 (pend cf w x)). pose proof (cnt_nonneg 4 (pend cf w x)).
+    pose proof (p_V _ _ _ _ _ Pwx) as EV. unfold CV, SV in EV. rewrite Rw, Rx in EV.
+    pose proof (p_O _ _ _ _ _ Pwx) as EO. unfold CO, SO in EO. rewrite Rw, Rx, (g_of1 _ _ _ _ Gx Kx), Kw in EO. simpl in EO.
+    pose proof (p_G _ _ _ _ _ Pwx) as EG. unfold CG, SG in EG. rewrite Rw, Rx, (g_ng3 _ _ _ _ Gx ltac:(lia)), Kw in EG. simpl in EG.
+    assert (E3 : cnt 3 (pend cf w x) = 0).
+    { apply (p_A0 _ _ _ _ _ Pwx). intros [(_ & _ & H2) _]. clear - H2 Kx. lia. }
+    assert (E5 : cnt 5 (pend cf w x) = 0).
+    { apply (p_Go0 _ _ _ _ _ Pwx). intros [(_ & _ & H2) _]. clear - H2 Kx. lia. }
+    assert (Hz : length (pend cf w x) = 0%nat) by (clear - Hlen EV EO EG E3 E5 Ec Fw B1 H H0 H1; lia).
+    destruct (pend cf w x); [reflexivity|discriminate].
+  Qed.
+
+  Theorem mgm2_terminates_k_l cf : 0 < stop -> reachable P cf -> quiet cf ->
+    forall x, rnc cf x = true ->
+      t_fin (st cf x) = 1 /\ t_cycle (st cf x) = fin_cycle x /\ w_held (nodes cf x) = [] /\
+      (nbr x <> [] -> t_state (st cf x) = 1 /\ t_nv (st cf x) = [] /\ t_offers (st cf x) = [] /\
+                      t_ng (st cf x) = [] /\ allposts (st cf x) = []).
+  Proof.
+    intros Hs Hre HQ x Rx. pose proof (reachable_inv cf Hre) as HC. pose proof (c_inv cf HC) as HI.
+    split; [|split; [|split; [apply (c_held cf HC x Rx)|]]].
+    - destruct (nbr x) eqn:En; [apply (i_iso _ _ _ _ _ HI x Rx En)|].
+      assert (Ha : nbr x <> []) by (rewrite En; discriminate).
+      rewrite (g_fin _ _ _ _ (i_good _ _ _ _ _ HI x Rx Ha)), (quiescent_all_done cf HC HQ x Ha). reflexivity.
+    - destruct (nbr x) eqn:En.
+      + unfold P_Mgm3c.fin_cycle. rewrite En. apply (i_iso _ _ _ _ _ HI x Rx En).
+      + assert (Ha : nbr x <> []) by (rewrite En; discriminate). rewrite (fin_cycle_active x Ha).
+        apply (done_cycle d stop x _ (i_good _ _ _ _ _ HI x Rx Ha) (quiescent_all_done cf HC HQ x Ha)). lia.
+    - intros Ha. pose proof (i_good _ _ _ _ _ HI x Rx Ha) as G.
+      pose proof (g_done _ _ _ _ G (quiescent_all_done cf HC HQ x Ha)) as K.
+      assert (Hposts : allposts (st cf x) = []).
+      { assert (Hs0 : forall p, In p (allposts (st cf x)) -> False).
+        { intros [w m] Hp. destruct (in_dec Z.eq_dec w (nbr x)) as [H|H].
+          - pose proof (pend_nil_final cf x w HC HQ H) as Hn. unfold pend in Hn.
+            apply app_eq_nil in Hn as [_ Hn]. apply app_eq_nil in Hn as [_ Hn].
+            assert (Hin : In m (to_y2 w (allposts (st cf x)))).
+            { unfold to_y2. apply in_map_iff. exists (w, m). split; [reflexivity|]. apply filter_In. split; [exact Hp|simpl; apply Z.eqb_refl]. }
+            rewrite Hn in Hin. exact Hin.
+          - pose proof (i_far _ _ _ _ _ HI w x H) as Hn. unfold pend in Hn.
+            apply app_eq_nil in Hn as [_ Hn]. apply app_eq_nil in Hn as [_ Hn].
+            assert (Hin : In m (to_y2 w (allposts (st cf x)))).
+            { unfold to_y2. apply in_map_iff. exists (w, m). split; [reflexivity|]. apply filter_In. split; [exact Hp|simpl; apply Z.eqb_refl]. }
+            rewrite Hn in Hin. exact Hin. }
+        destruct (allposts (st cf x)) as [|p r]; [reflexivity|exfalso; apply (Hs0 p); left; reflexivity]. }
+      split; [exact K|]. split; [|split; [apply (g_of1 _ _ _ _ G K)|split; [apply (g_ng3 _ _ _ _ G); lia|exact Hposts]]].
+      (* no value of a cycle that nobody runs is ever sent *)
+      destruct (t_nv (st cf x)) as [|[w v] r] eqn:Env; [reflexivity|exfalso].
+      destruct (g_nv _ _ _ _ G) as [_ Hinc]. rewrite Env in Hinc.
+      assert (Hw : In w (nbr x)) by (apply Hinc; left; reflexivity).
+      pose proof (pend_nil_final cf x w HC HQ Hw) as Hn.
+      pose proof (nbrs_sym d x w Hw) as Hxw. pose proof (act_of d x w Hxw) as Haw.
+      pose proof (proj1 HQ w Haw) as Rw. pose proof (i_good _ _ _ _ _ HI w Rw Haw) as Gw.
+      pose proof (quiescent_all_done cf HC HQ w Haw) as Dw. pose proof (quiescent_all_done cf HC HQ x Ha) as Dx.
+      pose proof (p_V _ _ _ _ _ (i_pair _ _ _ _ _ HI w x Hw)) as EV. unfold CV, SV in EV. rewrite Rw, Rx, Hn, Env in EV.
+      unfold kinv in EV. simpl in EV. rewrite Z.eqb_refl in EV. simpl in EV.
+      pose proof (g_fin _ _ _ _ Gw) as Fw. rewrite Dw in Fw. simpl in Fw.
+      pose proof (done_cycle d stop w _ Gw Dw ltac:(lia)). pose proof (done_cycle d stop x _ G Dx ltac:(lia)).
+      unfold cnt in EV. simpl in EV. lia.
+  Qed.
+
+  Theorem mgm2_no_deadlock_l cf : reachable P cf -> (forall x, nbr x <> [] -> rnc cf x = true) ->
+    (exists x, nbr x <> [] /\ doneb (t_cycle (st cf x)) = false) -> ~ (forall a b, chan cf a b = []).
+  Proof.
+    intros Hre Hrun (x & Ha & Hnd) Hq. pose proof (reachable_inv cf Hre) as HC.
+    rewrite (quiescent_all_done cf HC (conj Hrun Hq) x Ha) in Hnd. discriminate.
+  Qed.
+
+  Theorem mgm2_trace_ok_l sched : 0 <= stop ->
+    let cf := fst (run P sched) in let evs := snd (run P sched) in
+    (forall n k, ~ In (EvErr n k) evs) /\
+    (forall n k, In (EvFinished n k) evs -> k = fin_cycle n) /\
+    (forall x, (count_fin x evs <= 1)%nat /\ Z.of_nat (count_fin x evs) = t_fin (st cf x)).
+  Proof.
+    intros Hs cf evs. destruct (exec_inv sched (init P) inv_init) as [HC (E1 & E2 & E3)].
+    fold cf evs in HC, E1, E2, E3. split; [exact E1|]. split; [intros n k H; apply (E2 n k H Hs)|].
+    intros x. specialize (E3 x). pose proof (fin_le1 cf x HC).
+    assert (t_fin (st (init P) x) = 0) by reflexivity. unfold cf, evs, run in *. lia.
+  Qed.
+
+  (* the answer / go-no-go handshake: who may have what pending, and exactly once *)
+  Theorem mgm2_partner_handshake_l cf x y : reachable P cf ->
+    (forall a v g, In (M2Answer a v g) (pend cf x y) ->
+       t_offerer (st cf y) = true /\ t_partner (st cf y) = Some x /\ 2 <= t_state (st cf y) <= 3 /\
+       cnt 3 (pend cf x y) = 1 /\ (forall z, z <> x -> cnt 3 (pend cf z y) = 0)) /\
+    (forall go, In (M2Go go) (pend cf x y) ->
+       t_committed (st cf y) = true /\ t_partner (st cf y) = Some x /\ 4 <= t_state (st cf y) /\
+       cnt 5 (pend cf x y) = 1 /\ (forall z, z <> x -> cnt 5 (pend cf z y) = 0)) /\
+    (In x (nbr y) -> t_state (st cf y) = 3 -> t_partner (st cf y) = Some x -> 3 <= t_state (st cf x) ->
+       cnt 3 (pend cf x y) = 1) /\
+    (In x (nbr y) -> t_state (st cf y) = 5 -> t_partner (st cf y) = Some x -> sentGo (st cf) x y ->
+       cnt 5 (pend cf x y) = 1).
+  Proof.
+    intros Hre. pose proof (reachable_inv cf Hre) as HC. pose proof (c_inv cf HC) as HI.
+    assert (Hnb : forall m, In m (pend cf x y) -> In x (nbr y)).
+    { intros m Hm. destruct (in_dec Z.eq_dec x (nbr y)) as [H|H]; [exact H|]. rewrite (i_far _ _ _ _ _ HI x y H) in Hm. destruct Hm. }
+    assert (Hoth : forall k z, cnt k (pend cf z y) = 0 \/ In z (nbr y)).
+    { intros k z. destruct (in_dec Z.eq_dec z (nbr y)) as [H|H]; [right; exact H|left]. rewrite (i_far _ _ _ _ _ HI z y H). reflexivity. }
+    split; [|split; [|split]].
+    - intros a v g Hin. pose proof (Hnb _ Hin) as Hxy. pose proof (i_pair _ _ _ _ _ HI x y Hxy) as Pxy.
+      pose proof (in_cnt_pos _ _ Hin) as Hc. simpl in Hc.
+      assert (HA : expA (st cf) y x /\ 3 <= t_state (st cf x)).
+      { unfold expA. destruct (t_offerer (st cf y)) eqn:Eo.
+        2:{ exfalso. rewrite (p_A0 _ _ _ _ _ Pxy) in Hc; [lia|]. unfold expA. intros [(E & _) _]. congruence. }
+        destruct (t_partner (st cf y)) as [p|] eqn:Ep.
+        2:{ exfalso. rewrite (p_A0 _ _ _ _ _ Pxy) in Hc; [lia|]. unfold expA. intros [(_ & E & _) _]. congruence. }
+        destruct (Z.eq_dec p x) as [->|Hne].
+        2:{ exfalso. rewrite (p_A0 _ _ _ _ _ Pxy) in Hc; [lia|]. unfold expA. intros [(_ & E & _) _]. congruence. }
+        destruct (Z_le_gt_dec 2 (t_state (st cf y))) as [H2|H2].
+        2:{ exfalso. rewrite (p_A0 _ _ _ _ _ Pxy) in Hc; [lia|]. unfold expA. intros [(_ & _ & E) _]. lia. }
+        destruct (Z_le_gt_dec (t_state (st cf y)) 3) as [H3|H3].
+        2:{ exfalso. rewrite (p_A0 _ _ _ _ _ Pxy) in Hc; [lia|]. unfold expA. intros [(_ & _ & E) _]. lia. }
+        destruct (Z_le_gt_dec 3 (t_state (st cf x))) as [H4|H4].
+        2:{ exfalso. rewrite (p_A0 _ _ _ _ _ Pxy) in Hc; [lia|]. intros [_ E]. lia. }
+        repeat split; auto. }
+      destruct HA as [(A1 & A2 & A3) A4]. repeat split; try assumption; try lia.
+      + apply (p_A1 _ _ _ _ _ Pxy); [unfold expA; auto|exact A4].
+      + intros z Hz. destruct (Hoth 3 z) as [H|H]; [exact H|].
+        apply (p_A0 _ _ _ _ _ (i_pair _ _ _ _ _ HI z y H)). unfold expA. intros [(_ & E & _) _]. congruence.
+    - intros go Hin. pose proof (Hnb _ Hin) as Hxy. pose proof (i_pair _ _ _ _ _ HI x y Hxy) as Pxy.
+      pose proof (in_cnt_pos _ _ Hin) as Hc. simpl in Hc.
+      assert (HG : expG (st cf) y x /\ sentGo (st cf) x y).
+      { unfold expG, sentGo. destruct (t_committed (st cf y)) eqn:Eo.
+        2:{ exfalso. rewrite (p_Go0 _ _ _ _ _ Pxy) in Hc; [lia|]. unfold expG. intros [(E & _) _]. congruence. }
+        destruct (t_partner (st cf y)) as [p|] eqn:Ep.
+        2:{ exfalso. rewrite (p_Go0 _ _ _ _ _ Pxy) in Hc; [lia|]. unfold expG. intros [(_ & E & _) _]. congruence. }
+        destruct (Z.eq_dec p x) as [->|Hne].
+        2:{ exfalso. rewrite (p_Go0 _ _ _ _ _ Pxy) in Hc; [lia|]. unfold expG. intros [(_ & E & _) _]. congruence. }
+        destruct (Z_le_gt_dec 4 (t_state (st cf y))) as [H2|H2].
+        2:{ exfalso. rewrite (p_Go0 _ _ _ _ _ Pxy) in Hc; [lia|]. unfold expG. intros [(_ & _ & E) _]. lia. }
+        destruct (Z.eq_dec (t_cycle (st cf x)) (t_cycle (st cf y) + 1)) as [H3|H3]; [repeat split; auto|].
+        destruct (Z.eq_dec (t_cycle (st cf x)) (t_cycle (st cf y))) as [H4|H4].
+        2:{ exfalso. rewrite (p_Go0 _ _ _ _ _ Pxy) in Hc; [lia|]. unfold sentGo. intros [_ [[E _]|E]]; lia. }
+        destruct (Z.eq_dec (t_state (st cf x)) 5) as [H5|H5]; [repeat split; auto|].
+        exfalso. rewrite (p_Go0 _ _ _ _ _ Pxy) in Hc; [lia|]. unfold sentGo. intros [_ [[_ E]|E]]; lia. }
+      destruct HG as [(A1 & A2 & A3) A4]. repeat split; try assumption.
+      + apply (p_Go1 _ _ _ _ _ Pxy); [unfold expG; auto|exact A4].
+      + intros z Hz. destruct (Hoth 5 z) as [H|H]; [exact H|].
+        apply (p_Go0 _ _ _ _ _ (i_pair _ _ _ _ _ HI z y H)). unfold expG. intros [(_ & E & _) _]. congruence.
+    - intros Hxy K Hp H3. pose proof (i_pair _ _ _ _ _ HI x y Hxy) as Pxy.
+      destruct (rnc cf y) eqn:Ry.
+      + pose proof (i_good _ _ _ _ _ HI y Ry (act_of d x y Hxy)) as G.
+        apply (p_A1 _ _ _ _ _ Pxy); [|exact H3]. unfold expA. rewrite K. repeat split; try lia; [apply (g_k3 _ _ _ _ G K)|exact Hp].
+      + pose proof (idle_tabf (st cf y) x (i_idle _ _ _ _ _ HI y Ry)) as (T1 & _). rewrite T1 in K. discriminate.
+    - intros Hxy K Hp Hs. pose proof (i_pair _ _ _ _ _ HI x y Hxy) as Pxy.
+      destruct (rnc cf y) eqn:Ry.
+      + pose proof (i_good _ _ _ _ _ HI y Ry (act_of d x y Hxy)) as G.
+        apply (p_Go1 _ _ _ _ _ Pxy); [|exact Hs]. unfold expG. rewrite K. repeat split; try lia; [apply (g_k5 _ _ _ _ G K)|exact Hp].
+      + pose proof (idle_tabf (st cf y) x (i_idle _ _ _ _ _ HI y Ry)) as (T1 & _). rewrite T1 in K. discriminate.
+  Qed.
+End Global.
+
+(* ================================================================ closed statements *)
+(* phases of neighbours: at most one cycle apart, and then only "value of the next cycle" against
+   "gain / go of this cycle"; inside a cycle nobody is two phases ahead of a neighbour it depends on *)
+Lemma mgm2_phase_order_l d stop thr favor orc fuel cf a b : fuel_ok d fuel ->
+  reachable (mgm2_proto_f d stop thr favor orc fuel) cf -> In a (nbrs d b) ->
+  w_running (nodes cf a) = true -> w_running (nodes cf b) = true ->
+  let sa := w_st (nodes cf a) in let sb := w_st (nodes cf b) in
+  t_cycle sa <= t_cycle sb + 1 /\
+  (t_cycle sa = t_cycle sb + 1 -> t_state sa = 1 /\ 4 <= t_state sb) /\
+  (t_cycle sa = t_cycle sb -> (3 <= t_state sa -> 2 <= t_state sb) /\ (t_state sa = 5 -> 4 <= t_state sb)).
+Proof.
+  intros Hf Hre Hab Ra Rb sa sb. pose proof (c_inv _ _ _ _ (reachable_inv d stop thr favor orc fuel Hf cf Hre)) as HI.
+  destruct (pos_facts d stop _ _ _ HI a b Hab Ra Rb) as (Q1 & Q2 & Q3).
+  split; [exact Q1|]. split.
+  - intros E. destruct (Q2 E) as (A & B & _). auto.
+  - intros E. destruct (Q3 E) as (A & B & _). auto.
+Qed.
+
+Lemma mgm2_terminates_k_run_l d stop thr favor orc fuel sched : fuel_ok d fuel -> 0 < stop ->
+  let cf := fst (run (mgm2_proto_f d stop thr favor orc fuel) sched) in
+  let evs := snd (run (mgm2_proto_f d stop thr favor orc fuel) sched) in
+  (forall x, nbrs d x <> [] -> w_running (nodes cf x) = true) -> (forall a b, chan cf a b = []) ->
+  (forall n k, ~ In (EvErr n k) evs) /\
+  (forall x, w_running (nodes cf x) = true ->
+     count_fin x evs = 1%nat /\ (forall k, In (EvFinished x k) evs -> k = P_Mgm3c.fin_cycle d stop x) /\
+     t_cycle (w_st (nodes cf x)) = P_Mgm3c.fin_cycle d stop x /\ t_fin (w_st (nodes cf x)) = 1 /\
+     w_held (nodes cf x) = [] /\
+     (nbrs d x <> [] ->
+        t_state (w_st (nodes cf x)) = 1 /\ t_nv (w_st (nodes cf x)) = [] /\ t_offers (w_st (nodes cf x)) = [] /\
+        t_ng (w_st (nodes cf x)) = [] /\ allposts (w_st (nodes cf x)) = [])).
+Proof.
+  intros Hf Hs cf evs Hrun Hempty.
+  destruct (mgm2_trace_ok_l d stop thr favor orc fuel Hf sched ltac:(lia)) as (E1 & E2 & E3). fold cf evs in E1, E2, E3.
+  split; [exact E1|]. intros x Rx.
+  assert (Hre : reachable (mgm2_proto_f d stop thr favor orc fuel) cf) by (apply exec_reachable; constructor).
+  destruct (mgm2_terminates_k_l d stop thr favor orc fuel Hf cf Hs Hre (conj Hrun Hempty) x Rx) as (B1 & B2 & B3 & B4).
+  destruct (E3 x) as [C1 C2]. unfold st in *.
+  split; [lia|]. split; [intros k Hk; apply (E2 x k Hk)|]. auto.
+Qed.
+
+(* the model checked against the real code (M_Mgm2.mgm2_proto) is the instance fuel = FUEL *)
+Lemma mgm2_start_FUEL d stop thr favor n s : mgm2_start_f d stop thr favor FUEL n s = mgm2_start d stop thr favor n s.
+Proof. unfold mgm2_start_f, mgm2_start. destruct (nbrs d n); reflexivity. Qed.
+
+Lemma mgm2_reachable_FUEL d stop thr favor orc cf :
+  reachable (mgm2_proto d stop thr favor orc) cf -> reachable (mgm2_proto_f d stop thr favor orc FUEL) cf.
+Proof.
+  induction 1 as [|cf a Hre IH]; [apply (reach_init (mgm2_proto_f d stop thr favor orc FUEL))|].
+  assert (E : step (mgm2_proto d stop thr favor orc) cf a = step (mgm2_proto_f d stop thr favor orc FUEL) cf a).
+  { destruct a as [n|s0 d0]; simpl; [rewrite mgm2_start_FUEL; reflexivity|reflexivity]. }
+  rewrite E. apply reach_step. exact IH.
+Qed.
+
+Lemma mgm2_run_FUEL d stop thr favor orc sched :
+  run (mgm2_proto d stop thr favor orc) sched = run (mgm2_proto_f d stop thr favor orc FUEL) sched.
+Proof.
+  unfold run. change (init (mgm2_proto d stop thr favor orc)) with (init (mgm2_proto_f d stop thr favor orc FUEL)).
+  generalize (init (mgm2_proto_f d stop thr favor orc FUEL)) as cf.
+  induction sched as [|a r IH]; intros cf; [reflexivity|]. simpl.
+  assert (E : step (mgm2_proto d stop thr favor orc) cf a = step (mgm2_proto_f d stop thr favor orc FUEL) cf a).
+  { destruct a as [n|s0 d0]; simpl; [rewrite mgm2_start_FUEL; reflexivity|reflexivity]. }
+  rewrite E. destruct (step (mgm2_proto_f d stop thr favor orc FUEL) cf a) as [cf1 e1]. rewrite IH. reflexivity.
+Qed.
+
+(* every variable has at most 5 neighbours: FUEL = 60 is enough *)
+Lemma fuel_ok_FUEL d : (forall n, (length (nbrs d n) <= 5)%nat) -> fuel_ok d FUEL.
+Proof. intros H n. specialize (H n). unfold FUEL. lia. Qed.
+
+Lemma mgm2_terminates_k_FUEL_l d stop thr favor orc sched : (forall n, (length (nbrs d n) <= 5)%nat) -> 0 < stop ->
+  let cf := fst (run (mgm2_proto d stop thr favor orc) sched) in
+  let evs := snd (run (mgm2_proto d stop thr favor orc) sched) in
+  (forall x, nbrs d x <> [] -> w_running (nodes cf x) = true) -> (forall a b, chan cf a b = []) ->
+  (forall n k, ~ In (EvErr n k) evs) /\
+  (forall x, w_running (nodes cf x) = true ->
+     count_fin x evs = 1%nat /\ (forall k, In (EvFinished x k) evs -> k = P_Mgm3c.fin_cycle d stop x) /\
+     t_cycle (w_st (nodes cf x)) = P_Mgm3c.fin_cycle d stop x /\ t_fin (w_st (nodes cf x)) = 1).
+Proof.
+  intros Hd Hs. rewrite mgm2_run_FUEL. intros cf evs Hrun Hempty.
+  destruct (mgm2_terminates_k_run_l d stop thr favor orc FUEL sched (fuel_ok_FUEL d Hd) Hs Hrun Hempty) as [A B].
+  split; [exact A|]. intros x Rx. destruct (B x Rx) as (B1 & B2 & B3 & B4 & _). auto.
 Qed.
